@@ -117,6 +117,30 @@ func main() {
 	for _, t := range []*struct{ X int }{nil, {}} {
 		try(func() { r := a.FieldThenReturn(t); record("a.FieldThenReturn", 0, r == nil, false, r) })
 	}
+	for k := 1; k <= 4; k++ {
+		try(func() { r := a.Drain(a.StopAfter(k)); record("a.Drain", 0, r == nil, true, r) })
+		try(func() { r := a.DrainPtr(a.StopAfter(k)); record("a.DrainPtr", 0, r == nil, false, r) })
+		try(func() { r := a.RotateLoop(a.StopAfter(k)); record("a.RotateLoop", 0, r == nil, false, r) })
+		try(func() { r := a.FillLoop(a.StopAfter(k)); record("a.FillLoop", 0, r == nil, false, r) })
+	}
+	for _, x := range append(ifaces, []byte(nil), []byte{1}) {
+		x := x
+		for _, d := range []*int{nil, new(int)} {
+			try(func() { r := a.Pick[*int](x, d); record("a.Pick", 0, r == nil, false, r) })
+		}
+		try(func() { r := a.Pick[[]byte](x, []byte{2}); record("a.Pick", 0, r == nil, false, r) })
+		try(func() { r := a.PickNew[*int](x); record("a.PickNew", 0, r == nil, false, r) })
+		try(func() { r := a.AssertT[*int](x); record("a.AssertT", 0, r == nil, false, r) })
+		try(func() { r := a.AssertT[[]byte](x); record("a.AssertT", 0, r == nil, false, r) })
+		try(func() { r := a.Unwrap(x); record("a.Unwrap", 0, r == nil, false, r) })
+		try(func() { r := a.Boxed(x); record("a.Boxed", 0, r == nil, true, r) })
+		try(func() { r := a.UnwrapNew(x); record("a.UnwrapNew", 0, r == nil, false, r) })
+		try(func() { r := a.BoxedNew(x); record("a.BoxedNew", 0, r == nil, true, r) })
+		try(func() { r := a.UnwrapAssert(x); record("a.UnwrapAssert", 0, r == nil, false, r) })
+	}
+	try(func() { r := a.ZeroT[*int](); record("a.ZeroT", 0, r == nil, false, r) })
+	try(func() { r := a.ZeroT[[]byte](); record("a.ZeroT", 0, r == nil, false, r) })
+	try(func() { r := a.ZeroPtr(); record("a.ZeroPtr", 0, r == nil, false, r) })
 	for key, o := range table {
 		fmt.Println(key, o.returned, o.outerNil, o.outerNon, o.innerNil, o.innerNon)
 	}
